@@ -9,7 +9,7 @@ META = dict(
          "every send to a failing destination), followed by failure-free passes: in each pass the datagrams handed to the double must be, per destination, exactly the "
          "pending packets in queue order if the destination is not failing and nothing otherwise; hence every packet is sent exactly once, in order, and no destination "
          "blocks another. A second family fails individual send calls (every mask over the sends of two passes) and checks exactly-once, per-destination order and "
-         "that destinations without a failed send are not held back. A third family drives serviceTxPktsOnce with every fail/succeed pattern per call and with every subset of destinations failing per call, and requires exactly-once delivery in per-destination queue order. Zero-length datagrams are mixed into short queues under all three modes.",
+         "that destinations without a failed send are not held back. A third family drives serviceTxPktsOnce with every fail/succeed pattern per call and with every subset of destinations failing per call, and requires exactly-once delivery in per-destination queue order and progress (a destination that keeps failing at the head of the queue must not hold up packets to healthy destinations). Zero-length datagrams are mixed into short queues under all three modes.",
     note="The UDP socket is a double at the handler interface (send(data, ha)); transient errnos are the nine the stack itself treats as transient, all exercised. "
          "Non-transient errors (re-raised by the stack) and the receive side are outside the statement.",
 )
